@@ -52,6 +52,8 @@ def concrete_ops():
         'clear_cache()': lambda o: o.clear_cache(),
         'get_section_average': lambda o: o.get_section_average(start=0, end=-1, index=True),
         'response_times=': lambda o: setattr(o, 'response_times', rt2),
+        'response_times*=c': lambda o: _imul_attr(o, 'response_times', 2.0),
+        'response_times[0]=c;response_times=same-array': lambda o: _edit_and_reassign(o, 'response_times', 0.15),
         'gen_response_spectrum(response_times=)': lambda o: o.gen_response_spectrum(response_times=rt2),
         'generate_response_spectrum(response_times=)': lambda o: o.generate_response_spectrum(response_times=rt2),
         'response_series(response_times=)': lambda o: o.response_series(response_times=rt2),
@@ -73,6 +75,28 @@ def concrete_ops():
         'set_zero_residual_displacement_and_velocity/open-timezone': lambda o: o.set_zero_residual_displacement_and_velocity(timezone=(0.2, None)),
         'generate_peak_values()': lambda o: o.generate_peak_values(),
     }
+
+
+def _imul_attr(o, name, c):
+    cur = getattr(o, name)
+    if not isinstance(cur, np.ndarray) or cur.dtype.kind != 'f':
+        cur = np.array(cur, dtype=float)
+        setattr(o, name, cur)            # make sure the object holds a float array (as in the symbolic pre-state)
+        getattr(o, 's_a', None)
+    cur = getattr(o, name)
+    cur *= c                             # python: o.response_times *= c  is  get, in-place multiply, set
+    setattr(o, name, cur)
+
+
+def _edit_and_reassign(o, name, first):
+    cur = getattr(o, name)
+    if not isinstance(cur, np.ndarray) or cur.dtype.kind != 'f':
+        cur = np.array(cur, dtype=float)
+        setattr(o, name, cur)
+        getattr(o, 's_a', None)
+    cur = getattr(o, name)
+    cur[0] = first
+    setattr(o, name, cur)
 
 
 WARM = {'cached_fa': ['fa_spectrum'], 'cached_smooth_fa': ['smooth_fa_spectrum'], 'cached_vd': ['velocity', 'pgv', 'pgd'],
